@@ -285,4 +285,48 @@ func init() {
 		d, _ := strconv.Atoi(a[2])
 		addC18LargeIndexCase(run, n, idx, d, a[3] == "T")
 	}
+	recipes["c18refusal"] = func(run *Run, a []string) { addC18AfterRefusalCase(run) }
+}
+
+// addC18AfterRefusalCase: v1 RenderPatch of a diff it must refuse AFTER its first operations were produced (an object key
+// "-" in a later hunk), then — in the same process, several times — RenderPatch of an ordinary diff: that rendering must
+// evaluate (RFC 6902, evaluator of the harness) on a to b whatever was rendered, or refused, before it
+func addC18AfterRefusalCase(run *Run) {
+	xs, ys := `{"name":"x","opts":{"-":true}}`, `{"name":"y","opts":{"-":false}}`
+	as, bs := `{"k":[1,2],"m":{"n":0}}`, `{"k":[1,3],"m":{}}`
+	c := Case{Recipe: Recipe{"c18refusal", []string{}}, Desc: map[string]string{"api": "v1 (github.com/josephburnett/jd/lib)", "first": xs + " -> " + ys, "then": as + " -> " + bs},
+		Nontrivial: true, Sig: "after-refusal"}
+	verdict := "ok"
+	res, msg := safely(func() string {
+		for round := 0; round < 20; round++ {
+			x, _ := jd1.ReadJsonString(xs)
+			y, _ := jd1.ReadJsonString(ys)
+			x.Diff(y).RenderPatch() // refused or not: its outcome is judged by the ordinary cases
+			a, _ := jd1.ReadJsonString(as)
+			b, _ := jd1.ReadJsonString(bs)
+			text, err := a.Diff(b).RenderPatch()
+			if err != nil {
+				verdict = "fail v1 RenderPatch refuses an ordinary diff after an earlier rendering: " + err.Error()
+				return "done"
+			}
+			got, err := rfcApply(as, text)
+			if err != nil {
+				verdict = "fail RFC 6902 evaluation of a patch rendered after an earlier (refused) rendering fails: " + err.Error() + "; patch " + short(text)
+				return "done"
+			}
+			var want interface{}
+			json.Unmarshal([]byte(bs), &want)
+			if !reflect.DeepEqual(got, want) {
+				verdict = "fail RFC 6902 evaluation of a patch rendered after an earlier (refused) rendering does not give b; patch " + short(text)
+				return "done"
+			}
+		}
+		return "done"
+	})
+	if res == "panic" {
+		verdict = "fail panic: " + short(msg)
+	}
+	c.Probes = append(c.Probes, Probe{Kind: "direct", Rel: "C18 a v1 JSON Patch rendering does not depend on renderings (or refusals) before it in the same process", Want: verdict})
+	run.Count("mode:render-after-refusal")
+	run.Add(c)
 }
